@@ -4,8 +4,11 @@
 (* variables; the three formats) and ANY trailing bytes the decoder written from the format grammar *)
 (* recovers exactly the content the encoder was given; the encoder output is strictly valid (zero *)
 (* padding, vsize rule); the header length function equals the encoded length and is a multiple of 4. *)
+From Coq Require Import ZArith List.
 From Pnc Require Import Proofs_Header.
+From Pnc Require Import Proofs_Layout.
 Set Printing Width 100.
+Set Printing Depth 100000.
 
 Theorem C03_decode_encode_full :
   forall (h : Header.hdr) (rest : list Base.byte),
@@ -41,15 +44,140 @@ Proof. exact @hdr_len_encode. Qed.
 Print Assumptions C03_hdr_len_encode.
 
 Theorem C03_hdr_len_mod4 :
-  forall h : Header.hdr,
-         BinInt.Z.modulo (Header.hdr_len h) (BinNums.Zpos (BinNums.xO (BinNums.xO BinNums.xH))) =
-         BinNums.Z0.
+  forall h : Header.hdr, (Header.hdr_len h mod 4)%Z = 0%Z.
 Proof. exact @hdr_len_mod4_all. Qed.
 Print Assumptions C03_hdr_len_mod4.
 
 Theorem C03_encode_header_bytes :
   forall h : Header.hdr,
-         bytes_ok h = true ->
-         List.Forall (fun b : BinNums.Z => Base.is_byte b = true) (Header.encode_header h).
+         bytes_ok h = true -> Forall (fun b : Z => Base.is_byte b = true) (Header.encode_header h).
 Proof. exact @encode_header_bytes. Qed.
 Print Assumptions C03_encode_header_bytes.
+
+Theorem C03_resolve_align_ok :
+  forall (cfg : Header.aligncfg) (ea : Header.enddef_args) (nfix : Z) 
+           (is_new : bool) (ha va ra : Z),
+         (0 <= Header.env_h_align cfg)%Z ->
+         (0 <= Header.env_v_align cfg)%Z ->
+         (0 <= Header.env_r_align cfg)%Z ->
+         (0 <= Header.e_v_align ea)%Z ->
+         (0 <= Header.e_r_align ea)%Z ->
+         Header.resolve_align cfg ea nfix is_new = (ha, va, ra) ->
+         ((4 <= ha)%Z /\ (ha mod 4)%Z = 0%Z) /\
+         ((4 <= va)%Z /\ (va mod 4)%Z = 0%Z) /\ (4 <= ra)%Z /\ (ra mod 4)%Z = 0%Z.
+Proof. exact @resolve_align_ok. Qed.
+Print Assumptions C03_resolve_align_ok.
+
+Theorem C03_begins_layout_ok :
+  forall (h : Header.hdr) (hm vm ha ra : Z) (lay : Header.layout),
+         hdr_wf h ->
+         (0 <= hm)%Z ->
+         (0 <= vm)%Z ->
+         (4 <= ha)%Z ->
+         (ha mod 4)%Z = 0%Z ->
+         (4 <= ra)%Z ->
+         (ra mod 4)%Z = 0%Z ->
+         Header.begins h hm vm ha ra None 0 = Some lay ->
+         let h' := Header.set_begins h (Header.l_begins lay) in
+         let bv1 := bv1_new h hm ha in
+         lay_inv (t3of h) lay /\
+         HeaderSpec.layout_ok h' (Header.l_xsz lay) = true /\
+         Header.l_xsz lay = Header.hdr_len h /\
+         Base.Zlen (Header.l_begins lay) = Base.Zlen (Header.h_vars h) /\
+         (Header.hdr_len h <= bv1)%Z /\
+         (Header.h_vars h <> nil -> (Header.hdr_len h + hm <= bv1)%Z /\ (bv1 mod ha)%Z = 0%Z) /\
+         (bv1 <= Header.l_begin_var lay)%Z /\
+         match fixed_pairs h' with
+         | nil => Header.l_begin_var lay = Header.l_begin_rec lay
+         | (b, _) :: _ =>
+             Header.l_begin_var lay = b /\ b = bv1 /\ (Header.l_begin_var lay mod ha)%Z = 0%Z
+         end /\
+         HeaderSpec.begins_increasing bv1 (fixed_pairs h') = true /\
+         (last_end bv1 (fixed_pairs h') + vm <= Header.l_begin_rec lay)%Z /\
+         Header.l_begin_rec lay =
+         Base.rndup (Base.rndup (Z.max 0 (last_end bv1 (fixed_pairs h') + vm)) 4) ra /\
+         (Header.l_begin_rec lay mod 4)%Z = 0%Z /\
+         (Header.l_begin_rec lay mod ra)%Z = 0%Z /\
+         contig (Header.l_begin_rec lay) (rec_pairs h') /\ Header.l_recsize lay = recsize_of h.
+Proof. exact @begins_layout_ok. Qed.
+Print Assumptions C03_begins_layout_ok.
+
+Theorem C03_begins_layout_ok_redef :
+  forall (oh h : Header.hdr) (ol lay : Header.layout) (hm vm ha ra : Z),
+         hdr_wf h ->
+         (0 <= hm)%Z ->
+         (0 <= vm)%Z ->
+         (0 < ha)%Z ->
+         (4 <= ra)%Z ->
+         (ra mod 4)%Z = 0%Z ->
+         lay_inv (t3of oh) ol ->
+         hdr_extends oh h ->
+         Header.begins h hm vm ha ra (redef_old oh ol) (Header.l_begin_rec ol) = Some lay ->
+         HeaderSpec.layout_ok (Header.set_begins h (Header.l_begins lay)) (Header.l_xsz lay) = true /\
+         Header.l_xsz lay = Header.hdr_len h /\
+         Base.Zlen (Header.l_begins lay) = Base.Zlen (Header.h_vars h) /\
+         Header.l_recsize lay = recsize_of h.
+Proof. exact @begins_layout_ok_redef. Qed.
+Print Assumptions C03_begins_layout_ok_redef.
+
+Theorem C03_begins_monotone :
+  forall (oh h : Header.hdr) (ol lay : Header.layout) (hm vm ha ra : Z),
+         hdr_wf h ->
+         (0 <= hm)%Z ->
+         (0 <= vm)%Z ->
+         (0 < ha)%Z ->
+         (4 <= ra)%Z ->
+         (ra mod 4)%Z = 0%Z ->
+         lay_inv (t3of oh) ol ->
+         hdr_extends oh h ->
+         Header.begins h hm vm ha ra (redef_old oh ol) (Header.l_begin_rec ol) = Some lay ->
+         (forall i : Z,
+          (0 <= i < Base.Zlen (Header.h_vars oh))%Z ->
+          (Base.znth (Header.l_begins ol) i 0 <= Base.znth (Header.l_begins lay) i 0)%Z) /\
+         (Header.l_begin_var ol <= Header.l_begin_var lay)%Z /\
+         (Header.l_begin_rec ol <= Header.l_begin_rec lay)%Z /\
+         (Header.l_recsize ol <= Header.l_recsize lay)%Z /\ (0 <= Header.l_recsize ol)%Z.
+Proof. exact @begins_monotone. Qed.
+Print Assumptions C03_begins_monotone.
+
+Theorem C03_reachable_layout_ok :
+  forall (h : Header.hdr) (lay : Header.layout),
+         hdr_wf h ->
+         reachable (t3of h) lay ->
+         HeaderSpec.layout_ok (Header.set_begins h (Header.l_begins lay)) (Header.l_xsz lay) = true.
+Proof. exact @reachable_layout_ok. Qed.
+Print Assumptions C03_reachable_layout_ok.
+
+Theorem C03_layout_of_hdr_agrees :
+  forall (h : Header.hdr) (lay : Header.layout),
+         hdr_wf h ->
+         lay_inv (t3of h) lay ->
+         map Header.v_begin (Header.h_vars h) = Header.l_begins lay ->
+         Header.h_vars h <> nil ->
+         (forall v : Header.var, In v (rec_vars h) -> (0 < Header.var_len (Header.h_dims h) v)%Z) ->
+         let br' :=
+           match rec_vars h with
+           | nil => last_end (Header.l_begin_var lay) (fixed_pairs h)
+           | _ :: _ => Header.l_begin_rec lay
+           end in
+         HeaderSpec.layout_of_hdr h (Header.l_xsz lay) =
+         {|
+           Header.l_xsz := Header.l_xsz lay;
+           Header.l_begin_var := Header.l_begin_var lay;
+           Header.l_begin_rec := br';
+           Header.l_recsize := Header.l_recsize lay;
+           Header.l_begins := Header.l_begins lay
+         |} /\ lay_inv (t3of h) (HeaderSpec.layout_of_hdr h (Header.l_xsz lay)).
+Proof. exact @layout_of_hdr_agrees. Qed.
+Print Assumptions C03_layout_of_hdr_agrees.
+
+Theorem C03_recsize_single :
+  forall (h : Header.hdr) (v : Header.var),
+         rec_vars h = v :: nil -> recsize_of h = unpadded (Header.h_dims h) v.
+Proof. exact @recsize_single. Qed.
+Print Assumptions C03_recsize_single.
+
+Theorem C03_begin_var_minfree_refuted_without_variables :
+  ~ begin_var_minfree_full.
+Proof. exact @begin_var_minfree_refuted. Qed.
+Print Assumptions C03_begin_var_minfree_refuted_without_variables.
